@@ -262,3 +262,107 @@ func VP_C07_locals() {
 	vpAssert("C07/locals/data-unchanged", unchanged)
 	vpAssert("C07/locals/no-write-to-caller-data", vpWrites() == 0)
 }
+
+func init() {
+	vpHarnesses["VP_C07_sequencing"] = VP_C07_sequencing
+	vpHarnesses["VP_C07_builtins"] = VP_C07_builtins
+}
+
+// vpWrap wraps inner in one of the constructs through which a binding made on
+// the left must still be visible on the right.
+func vpWrap(inner *vpProg, filler func() *vpProg) *vpProg {
+	switch vpChoice("wrap", 9) {
+	case 0:
+		return inner
+	case 1:
+		return &vpProg{kind: gParen, kids: []*vpProg{inner}}
+	case 2: // selected branch of a conditional with a truthy condition
+		return &vpProg{kind: gCond, kids: []*vpProg{{kind: gLit, lit: 1}, inner, filler()}}
+	case 3: // selected branch of a conditional with a falsy condition
+		return &vpProg{kind: gCond, kids: []*vpProg{{kind: gLit, lit: 0}, filler(), inner}}
+	case 4:
+		return &vpProg{kind: gArray, kids: []*vpProg{inner, filler()}}
+	case 5:
+		return &vpProg{kind: gArray, kids: []*vpProg{filler(), inner}}
+	case 6:
+		return &vpProg{kind: gCall, kids: []*vpProg{filler(), inner}}
+	case 7:
+		return &vpProg{kind: gComma, kids: []*vpProg{filler(), inner}}
+	}
+	return &vpProg{kind: gCond, kids: []*vpProg{inner, filler(), filler()}} // in the condition
+}
+
+// C07/sequencing: `L , R` where L contains an assignment wrapped in up to two
+// constructs (parentheses, either branch or the condition of a conditional,
+// array elements, call arguments, a nested comma) and R reads the locals.
+func VP_C07_sequencing() {
+	filler := func() *vpProg {
+		if vpBool("fillerReadsLocal") {
+			return &vpProg{kind: gLocal, name: vpLocalNames[vpChoice("fl", 2)]}
+		}
+		return &vpProg{kind: gLit, lit: vpChoice("flit", 3)}
+	}
+	assign := &vpProg{kind: gAssign, name: vpLocalNames[vpChoice("target", 2)], kids: []*vpProg{{kind: gLit, lit: 1 + vpChoice("val", 2)}}}
+	left := vpWrap(assign, filler)
+	if vpParam("W") >= 2 {
+		left = vpWrap(left, filler)
+	}
+	var right *vpProg
+	switch vpChoice("right", 3) {
+	case 0:
+		right = &vpProg{kind: gLocal, name: "$a"}
+	case 1:
+		right = &vpProg{kind: gArray, kids: []*vpProg{{kind: gLocal, name: "$a"}, {kind: gLocal, name: "$b"}}}
+	default:
+		right = &vpProg{kind: gAssign, name: "$b", kids: []*vpProg{{kind: gLocal, name: "$a"}}}
+	}
+	prog := &vpProg{kind: gComma, kids: []*vpProg{left, right}}
+	calls := 0
+	data := map[string]interface{}{"x": 0, "y": nil, "f": func(a, b interface{}) (int, error) { calls++; return 5, nil }}
+	r := NewRunner()
+	r.SetThis(data)
+	ref := &vpRefState{store: map[string]interface{}{"x": 0, "y": nil}}
+	want, wok := ref.eval(prog)
+	got, err := r.resolve(context.Background(), prog.ast())
+	vpAssert("C07/sequencing/no-error", wok && err == nil)
+	if err != nil || !wok {
+		return
+	}
+	vpAssert("C07/sequencing/value", vpSameRef(got, want))
+	vpAssert("C07/sequencing/call-count", calls == ref.calls)
+	for _, ln := range vpLocalNames {
+		v2, err2 := r.resolve(context.Background(), vpId(ln))
+		vpAssert("C07/sequencing/binding-visible-in-later-evaluation", err2 == nil && vpSameRef(v2, ref.store[ln]))
+	}
+	vpReach("C07/sequencing/done")
+}
+
+// C07/builtins: numbers bound to locals or held in the caller's data are not
+// changed by passing them to builtins (the value read later is the value bound).
+func VP_C07_builtins() {
+	fn := []string{"round", "roundBank", "abs", "ceil", "floor", "toInt", "finite", "toString", "max", "min"}[vpChoice("fn", 10)]
+	x := vpNumParamExp("x", 1000, -2, 0)
+	num := x.big()
+	data := map[string]interface{}{"num": num}
+	vpFreeze("data", data)
+	vpAllowDollarKeys("data")
+	r := NewRunner()
+	r.SetThis(data)
+	call := func(arg Expression) Expression { return &CallExpression{Expression: vpId(fn), Arguments: vpList(arg)} }
+	// $a = num, fn($a), fn(num), [$a, num]
+	prog := vpBin(SK_Comma, vpBin(SK_Comma, vpBin(SK_Comma, vpBin(SK_Equals, vpId("$a"), vpId("num")), call(vpId("$a"))), call(vpId("num"))),
+		&ArrayLiteralExpression{Elements: vpList(vpId("$a"), vpId("num"))})
+	got, err := r.resolve(context.Background(), prog)
+	vpAssert("C07/builtins/no-error", err == nil)
+	arr, ok := got.([]interface{})
+	if err != nil || !ok || len(arr) != 2 {
+		vpAssert("C07/builtins/yields-pair", false)
+		return
+	}
+	a, ok1 := arr[0].(*decimal.Big)
+	b, ok2 := arr[1].(*decimal.Big)
+	vpAssert("C07/builtins/local-still-has-bound-value", ok1 && vpBigEq(a, x.neg, x.coef, x.exp))
+	vpAssert("C07/builtins/caller-number-unchanged", ok2 && vpBigEq(b, x.neg, x.coef, x.exp) && vpBigEq(num, x.neg, x.coef, x.exp))
+	vpAssert("C07/builtins/no-write-to-caller-data", vpWrites() == 0)
+	vpReach("C07/builtins/done")
+}
